@@ -548,6 +548,27 @@ func TestVerif_C04_Faults(t *testing.T) {
 				// (expiration, rollback) keep running undisturbed
 				g := verifx.GoID()
 				f, fired := verifx.FailNth(func(o *verifx.Op) bool { return o.G == g }, k)
+				// one in three: the k-th operation and every later one of the request fail (a storage outage that
+				// outlasts the request, or the request's context ending)
+				persistent := fairIndex(rt, fmt.Sprintf("outageFromOp%d", k), 3) == 0
+				if persistent {
+					cnt := 0
+					var first *verifx.Op
+					f = func(o *verifx.Op) error {
+						if o.G != g {
+							return nil
+						}
+						cnt++
+						if cnt >= k {
+							if first == nil {
+								first = o
+							}
+							return verifx.ErrInjected
+						}
+						return nil
+					}
+					fired = func() *verifx.Op { return first }
+				}
 				w.tc.rec.SetFault(f)
 				seqStart := w.tc.rec.Seq()
 				first := w.revoke(kind, target)
@@ -570,6 +591,9 @@ func TestVerif_C04_Faults(t *testing.T) {
 				what := "none"
 				if hit != nil {
 					what = hit.Kind + " " + keyClass(hit.Key)
+					if persistent {
+						what += " and every later operation"
+					}
 				}
 				detail := map[string]any{"tree": base.shape(), "build": base.log, "revocation": kind, "fault_at_op": k, "of_ops": nOps, "failed_op": what, "attempts": attempts, "transactional": w.tc.opts.transactional}
 				var oplog []string
